@@ -61,7 +61,7 @@ def run(rep, tier):
             elif x["e"] == "Reset":
                 for f in x["feats"]:
                     kinds.add(f["kind"])
-    if nviews < 500 or len(kinds) < 5:
+    if not rep.violations and (nviews < 500 or len(kinds) < 5):
         raise CheckError("dataset driver coverage too small: %d view records, kinds %s" % (nviews, kinds))
     ex0 = [x for x in results[0][5] if x["e"] in ("Reset", "Op")][:5]
     rep.sample({"history": [{k: (v if len(str(v)) < 200 else str(v)[:200] + "...") for k, v in x.items()} for x in ex0]})
